@@ -340,6 +340,8 @@ pub struct World<S: Service, K: Kind> {
     next_s: u32,
     abandoned: u32,
     hook: HookRef,
+    /// the action being executed (reported when the code under test panics)
+    last: Value,
 }
 
 fn ev(a: &str, fields: Value) -> Value {
@@ -396,6 +398,7 @@ impl<S: Service + 'static, K: Kind> World<S, K> {
             next_s: 1,
             abandoned: 0,
             hook: Hook::new(),
+            last: Value::Null,
         }
     }
 
@@ -587,6 +590,7 @@ impl<S: Service + 'static, K: Kind> World<S, K> {
     fn exec(&mut self, act: &Value) -> Vec<Value> {
         let a = act["a"].as_str().unwrap_or("");
         let mut out = Vec::new();
+        self.last = json!({"a": a, "s": Self::u(act, "s"), "p": Self::u(act, "p")});
         match a {
             "create_pub" => {
                 let p = Self::u(act, "p") as u32;
@@ -1113,7 +1117,24 @@ pub fn run_job<S: Service + 'static, K: Kind>(
                 .or_else(|| p.downcast_ref::<&str>().map(|s| s.to_string()))
                 .unwrap_or_else(|| "panic".into());
             summary.panics += 1;
-            tw.emit(&json!({"k": "op", "a": "panic", "msg": msg, "bad": []}));
+            // the call that aborted and the class of the message (the trace specification explains exactly one
+            // class, as a tagged known-defect shape)
+            let at = world.last.clone();
+            let cls = if msg.contains("Expired connection buffer exceeded") && msg.contains("still borrowed") {
+                "expired-borrowed"
+            } else {
+                "other"
+            };
+            // the message of a fatal_panic starts with a debug dump of the whole port: keep its end
+            let msg: String = {
+                let cs: Vec<char> = msg.chars().collect();
+                cs[cs.len().saturating_sub(400)..].iter().collect()
+            };
+            let e = json!({"k": "op", "a": "panic", "cls": cls, "at": at["a"].as_str().unwrap_or("?"),
+                           "s": at["s"].as_u64().unwrap_or(0), "p": at["p"].as_u64().unwrap_or(0), "msg": msg, "bad": []});
+            summary.count(&e);
+            tw.emit(&e);
+            tw.emit(&json!({"k": "end"}));
             *world.hook.nested.lock().unwrap_or_else(|e| e.into_inner()) = None;
             std::mem::forget(world);
         }
